@@ -16,6 +16,7 @@ type cliClient struct {
 	p        *Program
 	fn       string
 	compile  *types.Func
+	compileM *types.Func  // (*CompileOptions).Compile: the same entry point with options
 	prelude  types.Object // the prelude builder
 	logErr   types.Object // the logError parameter
 	output   types.Object // the io.Writer parameter
@@ -63,7 +64,7 @@ func (c *cliClient) relevant(decl *ast.FuncDecl, depth int) bool {
 			return !found
 		}
 		f := Callee(info, call)
-		if f != nil && (f == c.compile || f.Pkg() != nil && f.Pkg().Path() == PathParser && fnName(f) == "SplitStatements") {
+		if f != nil && (c.isCompile(f) || f.Pkg() != nil && f.Pkg().Path() == PathParser && fnName(f) == "SplitStatements") {
 			found = true
 			return false
 		}
@@ -79,6 +80,11 @@ func (c *cliClient) relevant(decl *ast.FuncDecl, depth int) bool {
 	})
 	c.rel[decl] = found
 	return found
+}
+
+// isCompile: the library's entry point, as the package function or as the method with options.
+func (c *cliClient) isCompile(f *types.Func) bool {
+	return f != nil && (f == c.compile || f == c.compileM)
 }
 
 func isScannerErr(callee *types.Func) bool {
@@ -111,7 +117,7 @@ func (c *cliClient) PostAssign(e *Engine, st *State, lhs, rhs []ast.Expr, _ ast.
 		}
 	}
 	switch {
-	case callee == c.compile && len(lhs) == 2:
+	case c.isCompile(callee) && len(lhs) == 2:
 		st = e.DropTags(st, "compileerr")
 		if k := e.CanonSt(st, lhs[1]); k.OK {
 			st = st.WithExt("compileerr", k.Key).WithExt("compileres", "")
@@ -222,9 +228,9 @@ func (c *cliClient) noteReadErr(st *State) *State {
 func (c *cliClient) PreCall(e *Engine, st *State, call *ast.CallExpr, callee *types.Func) *State {
 	info := e.Info
 	// C16/prelude: every Compile call is fed the prelude first.
-	if callee == c.compile {
+	if c.isCompile(callee) {
 		c.compiles++
-		key := fmt.Sprintf("%s call #%d of pql.Compile", c.where(e), c.ordinal(e, call, func(cc *ast.CallExpr) bool { return Callee(info, cc) == c.compile }))
+		key := fmt.Sprintf("%s call #%d of pql.Compile", c.where(e), c.ordinal(e, call, func(cc *ast.CallExpr) bool { return c.isCompile(Callee(info, cc)) }))
 		// the first operand of the concatenation, with temporaries and helper parameters looked through
 		pieces := e.flattenConcat(call.Args[0], nil, 0)
 		left := pieces[0]
@@ -454,13 +460,65 @@ func (c *cliClient) Return(e *Engine, st *State, ret *ast.ReturnStmt) {
 	}
 }
 
-func ruleC16(p *Program, r *Run) {
+// cliRun: the function that does the command's work - run, or the function run hands everything on to when its
+// body is a single `return worker(..., output, input, logError)` - and the functions whose error is that of run.
+func (p *Program) cliRun() (*ast.FuncDecl, map[*types.Func]bool) {
 	pkg := p.Main
 	info := pkg.TypesInfo
 	fd := p.MustFunc(pkg, "run")
+	fns := map[*types.Func]bool{}
+	if f := FuncObj(pkg, fd); f != nil {
+		fns[f] = true
+	}
+	for depth := 0; depth < 3; depth++ {
+		if len(fd.Body.List) != 1 {
+			break
+		}
+		ret, ok := fd.Body.List[0].(*ast.ReturnStmt)
+		if !ok || len(ret.Results) != 1 {
+			break
+		}
+		call, ok := ast.Unparen(ret.Results[0]).(*ast.CallExpr)
+		if !ok {
+			break
+		}
+		callee := Callee(info, call)
+		decl, dpkg := p.DeclOf(callee)
+		if decl == nil || decl.Body == nil || dpkg != pkg || decl == fd {
+			break
+		}
+		// the writer and the error callback are passed on as they are
+		params := map[types.Object]bool{}
+		for _, f := range fd.Type.Params.List {
+			for _, n := range f.Names {
+				switch TypeStr(info.TypeOf(f.Type)) {
+				case "func(error)", "io.Writer", "io.Reader":
+					params[info.Defs[n]] = true
+				}
+			}
+		}
+		passed := 0
+		for _, a := range call.Args {
+			if params[objOf(info, a)] {
+				passed++
+			}
+		}
+		if passed != len(params) || passed == 0 {
+			break
+		}
+		fd = decl
+		fns[callee] = true
+	}
+	return fd, fns
+}
+
+func ruleC16(p *Program, r *Run) {
+	pkg := p.Main
+	info := pkg.TypesInfo
+	fd, _ := p.cliRun()
 	fn := FuncName(pkg, fd)
 	r.Saw(fn)
-	c := &cliClient{p: p, fn: fn, compile: FuncObj(p.PQL, p.MustFunc(p.PQL, "Compile")), wrappers: map[types.Object]bool{}}
+	c := &cliClient{p: p, fn: fn, compile: FuncObj(p.PQL, p.MustFunc(p.PQL, "Compile")), compileM: FuncObj(p.PQL, p.MustFunc(p.PQL, "CompileOptions.Compile")), wrappers: map[types.Object]bool{}}
 	for _, f := range fd.Type.Params.List {
 		for _, n := range f.Names {
 			switch TypeStr(info.TypeOf(f.Type)) {
@@ -507,7 +565,7 @@ func ruleC16(p *Program, r *Run) {
 	cands := map[types.Object]int{}
 	inspectRegion(region, func(n ast.Node) bool {
 		call, ok := n.(*ast.CallExpr)
-		if !ok || Callee(info, call) != c.compile {
+		if !ok || !c.isCompile(Callee(info, call)) {
 			return true
 		}
 		left := call.Args[0]
@@ -620,7 +678,7 @@ type exitClient struct {
 	BaseClient
 	fn      string
 	errKey  string
-	runFunc *types.Func
+	runFuncs map[*types.Func]bool // run and the function it hands its work to
 }
 
 func (c *exitClient) PostAssign(e *Engine, st *State, lhs, rhs []ast.Expr, _ ast.Stmt) *State {
@@ -631,7 +689,7 @@ func (c *exitClient) PostAssign(e *Engine, st *State, lhs, rhs []ast.Expr, _ ast
 					return st.WithExt("execerr", k.Key)
 				}
 			}
-			if Callee(e.Info, call) == c.runFunc && e.Lit != nil {
+			if c.runFuncs[Callee(e.Info, call)] && e.Lit != nil {
 				return e.SetTag(st, lhs[0], "runerr")
 			}
 		}
@@ -709,7 +767,8 @@ func ruleC16Exit(p *Program, r *Run) {
 	fd := p.MustFunc(pkg, "main")
 	fn := FuncName(pkg, fd)
 	r.Saw(fn)
-	c := &exitClient{fn: fn, runFunc: FuncObj(pkg, p.MustFunc(pkg, "run"))}
+	_, runFns := p.cliRun()
+	c := &exitClient{fn: fn, runFuncs: runFns}
 	e := NewEngine(p, pkg, fd, c)
 	e.Run(nil)
 	for _, m := range e.Errs {
@@ -731,6 +790,7 @@ func ruleC16Carry(p *Program, r *Run, fd *ast.FuncDecl) {
 	fn := FuncName(pkg, fd)
 	split := FuncObj(p.Parser, p.MustFunc(p.Parser, "SplitStatements"))
 	compile := FuncObj(p.PQL, p.MustFunc(p.PQL, "Compile"))
+	compileM := FuncObj(p.PQL, p.MustFunc(p.PQL, "CompileOptions.Compile"))
 	region := p.mainRegion(fd)
 	declOf := func(n ast.Node) *ast.FuncDecl {
 		for _, d := range region {
@@ -921,7 +981,7 @@ func ruleC16Carry(p *Program, r *Run, fd *ast.FuncDecl) {
 				return true
 			}
 			callee := Callee(info, call)
-			if callee == compile && len(call.Args) == 1 {
+			if (callee == compile || callee == compileM) && callee != nil && len(call.Args) == 1 {
 				out = append(out, compileSite{call, call.Args[0]})
 				return true
 			}
